@@ -511,6 +511,36 @@ func receiveSetsError(c *core.Ctx) {
 			astx.ForEachPathTo(info, fd.Body, bodyRead, func(s *astx.State) {
 				n++
 				got := s.CountCalls(func(call *ast.CallExpr) bool { return isMethodNamed(info, call, "getError") }) > 0
+				// or read through an accessor of the small struct that holds it (`d.err.Load()`)
+				if !got {
+					got = s.CountCalls(func(call *ast.CallExpr) bool {
+						sel, ok := call.Fun.(*ast.SelectorExpr)
+						if !ok || len(call.Args) != 0 {
+							return false
+						}
+						f := astx.FieldOf(info, sel.X)
+						if f == nil || f.Name() != "err" || f.Pkg() != p.Connect.Types {
+							return false
+						}
+						t := info.TypeOf(call)
+						return t != nil && types.Identical(t, types.Universe.Lookup("error").Type())
+					}) > 0
+				}
+				// or the recorded error read in place (the accessor inlined, or kept in a small struct of its own)
+				if !got {
+					got = s.AnyStep(func(n ast.Node) bool {
+						found := false
+						ast.Inspect(n, func(x ast.Node) bool {
+							if sel, ok := x.(*ast.SelectorExpr); ok {
+								if f := astx.FieldOf(info, sel); f != nil && f.Name() == "err" && f.Pkg() == p.Connect.Types && types.Identical(f.Type(), types.Universe.Lookup("error").Type()) {
+									found = true
+								}
+							}
+							return !found
+						})
+						return found
+					})
+				}
 				waited := s.CountCalls(func(call *ast.CallExpr) bool { return isMethodNamed(info, call, "BlockUntilResponseReady") }) > 0
 				if !got || !waited {
 					ok = false
